@@ -58,6 +58,7 @@ impl<'a> Message<'a> {
 #[kani::unwind(9)]
 #[kani::stub(PortActionIterator::from, PortActionIterator::verif_recording_from)]
 #[kani::stub(Message::deserialize, Message::verif_stub_deserialize)]
+#[kani::stub(Message::serialize, Message::verif_recording_serialize)]
 #[kani::stub(<Duration as core::ops::Div<i32>>::div, stub_div_by_two)]
 #[kani::stub(<Duration as core::ops::Div<f64>>::div, stub_div_by_two)]
 #[kani::stub(<WireTimestamp as core::convert::From<Time>>::from, stub_wire_from_time)]
@@ -97,6 +98,7 @@ fn c07_foreign_domain_version_or_malformed_is_frame() {
 #[kani::unwind(9)]
 #[kani::stub(PortActionIterator::from, PortActionIterator::verif_recording_from)]
 #[kani::stub(Message::deserialize, Message::verif_stub_deserialize)]
+#[kani::stub(Message::serialize, Message::verif_recording_serialize)]
 #[kani::stub(<Duration as core::ops::Div<i32>>::div, stub_div_by_two)]
 #[kani::stub(<Duration as core::ops::Div<f64>>::div, stub_div_by_two)]
 #[kani::stub(<WireTimestamp as core::convert::From<Time>>::from, stub_wire_from_time)]
